@@ -1,5 +1,5 @@
 (* C18 - sub-document writes change only the addressed property. Property theorems only. *)
-From Rosmar Require Import Base Json JsonProofs Kv Store Trace KvTac KvC02.
+From Rosmar Require Import Base Json JsonProofs Kv Store Trace KvTac KvLift KvC02 KvC18.
 
 (* every property on a path that diverges from the written one keeps its value or its absence *)
 Theorem C18_frame : forall p j v j' p', upsert_path j p v = inl j' -> diverges p p' = true ->
@@ -20,3 +20,12 @@ Print Assumptions C18_remove.
 Theorem C18_cas : rc_sound chk_row_C02.
 Proof. exact C02_row_sound. Qed.
 Print Assumptions C18_cas.
+
+(* the whole call, in every history of the model: a sub-document write that succeeds stores the old document
+   with exactly the addressed property set or removed (an insert only where the property was absent), one that
+   fails changes nothing, a read answers the addressed property of the current body - and a write given no CAS
+   never reports a CAS mismatch: it retries when it loses a race.  chk_C18_kv is the checker the
+   correspondence runs on every implementation trace. *)
+Theorem C18_checker_accepts_every_model_history : forall c, wf_case c -> chk_C18_kv (c, srun c) = true.
+Proof. exact (chk_kv_sound chk_row_C18 C18_row_sound). Qed.
+Print Assumptions C18_checker_accepts_every_model_history.
